@@ -19,6 +19,7 @@ from mc import harness
 from sismic.io import import_from_yaml
 from sismic.interpreter import Interpreter
 from sismic.model import Event
+import sismic.clock.clock as clockmod
 
 BOUNDS = {'quick': (3, 2), 'thorough': (4, 2)}
 
@@ -134,6 +135,11 @@ statechart:
       type: final
 '''
 PREFIX = ('go', 'go', 'go', 'pause', 'resume')
+# family B: the interpreter's SimulatedClock is *running* (speed 2) on a scripted real-time source; no real time
+# passes between taking a snapshot and restoring it
+REAL = [0]
+clockmod.time = lambda: REAL[0]
+OPSB = ['go', 'inc', 'pause', 'resume', 'step', 'real+1', 'job_d']
 OPS = ['go', 'inc', 'pause', 'resume', 'bad', 'clock+2', 'step', 'job', 'job_d']
 _SC = []
 
@@ -145,6 +151,13 @@ def sc():
 
 
 def apply(it, op):
+    if op == 'cstart':          # the clock runs from now on, at twice the speed of (scripted) real time
+        it.clock.speed = 2
+        it.clock.start()
+        return ('clk', it.clock.time)
+    if op == 'real+1':
+        REAL[0] += 1
+        return ('clk', it.clock.time)
     if op == 'clock+2':
         it.clock.time += 2
         return ('clk', it.clock.time)
@@ -168,6 +181,7 @@ _PROP = []
 
 
 def fresh(hist):
+    REAL[0] = 0
     it = Interpreter(sc())
     if not _PROP:
         _PROP.append(import_from_yaml(PROP))
@@ -179,7 +193,8 @@ def fresh(hist):
 
 
 def work(task):
-    hists, D, C = task
+    hists, D, C = task[:3]
+    ops = task[3] if len(task) > 3 else OPS
     res = {'states': 0, 'transitions': 0, 'outcomes': collections.Counter(), 'violations': [],
            'nviol': 0}
     seen_states = set()
@@ -191,9 +206,10 @@ def work(task):
             res['violations'].append({'kind': kind, 'hist': list(hist), 'cont': list(cont),
                                       'expected': repr(ref[i])[:300], 'observed': repr(got[i])[:300],
                                       'at': i})
-    conts = [c for n in range(1, C + 1) for c in itertools.product(OPS, repeat=n) if n == C]
+    conts = [c for n in range(1, C + 1) for c in itertools.product(ops, repeat=n) if n == C]
     for hist in hists:
         it = fresh(hist)
+        r0 = REAL[0]
         try:
             blob = pickle.dumps(it)
         except Exception as e:
@@ -210,10 +226,12 @@ def work(task):
             ref_it = fresh(hist)
             ref = [apply(ref_it, op) for op in cont]
             res['outcomes'][ref[-1][0] if ref[-1][0] != 'exc' else 'exc:' + ref[-1][1]] += 1
+            REAL[0] = r0
             b1 = pickle.loads(blob)
             got = [apply(b1, op) for op in cont]
             if got != ref:
                 viol('pickle', hist, cont, ref, got)
+            REAL[0] = r0
             b2 = copy.deepcopy(dc)
             got = [apply(b2, op) for op in cont]
             if got != ref:
@@ -223,6 +241,7 @@ def work(task):
             got = [apply(orig, op) for op in cont]
             if got != ref:
                 viol('original-disturbed', hist, cont, ref, got)
+            REAL[0] = r0
             # ... and the copies taken from it must not have been disturbed by running the original
             got = [apply(keep[1], op) for op in cont]
             if got != ref:
@@ -248,6 +267,9 @@ def run(tier, seed):
     hists += [PREFIX + h for d in range(0, D) for h in itertools.product(OPS, repeat=d)]
     nchunks = 16 * 6
     tasks = [(hists[i::nchunks], D, C) for i in range(nchunks)]
+    hists_b = [('cstart',) + h for d in range(0, D) for h in itertools.product(OPSB, repeat=d)]
+    tasks += [(hists_b[i::16], D, C, OPSB) for i in range(16)]
+    hists = hists + hists_b
     results = harness.pmap(work, tasks)
     agg = harness.Agg()
     viols = []
